@@ -30,6 +30,9 @@ M = [
     ('task', 'successors.setter', 'pjplan/task.py', "        for v in value:\n            if self in v.all_successors:\n                raise RuntimeError(f\"{self.id} exists in {v.id} successors. Cyclic dependency\")", "        pass", 'un-mirror'),
     ('task', '_attach', 'pjplan/task.py', "        self.__wbs = wbs\n        for ch in self.children:\n            ch._attach(wbs)", "        self.__wbs = wbs\n        for ch in self.children:\n            pass", 'owners'),
     ('task', '__set_children', 'pjplan/task.py', "        self.__children = lst", "        self.__children = list(lst)", 'list-object'),
+    ('task', '_PredecessorsList.append', 'pjplan/task.py', "        self.__parent.predecessors = [v for v in self.__parent.predecessors] + [task]", "        self.__parent.predecessors = [task] + [v for v in self.__parent.predecessors]", 'comes-last'),
+    ('task', '_SuccessorsList.remove', 'pjplan/task.py', "        self.__parent.successors = [v for v in self.__parent.successors if v != task]\n        return True", "        self.__parent.successors = [v for v in self.__parent.successors if v != task]\n        return False", 'membership'),
+    ('task', '_PredecessorsList.remove', 'pjplan/task.py', "        self.__parent.predecessors = [v for v in self.__parent.predecessors if v != task]", "        self.__parent.predecessors = [v for v in self.__parent.predecessors]", 'without-the-task'),
     ('query', 'search', 'pjplan/task.py', "                    if val is None or not val <= v:", "                    if val is None or not val < v:", 'search-is-true'),
     ('query', 'search', 'pjplan/task.py', '                elif k.endswith("_is_none_"):\n                    k = k[0:-9]', '                elif k.endswith("_is_none_"):\n                    k = k[0:-8]', 'search-is-true'),
     ('query', '__get_task_attribute', 'pjplan/task.py', "        if attribute_name in t.__dict__ or attribute_name in ('estimate', 'spent'):", "        if attribute_name in t.__dict__:", 'public-attribute'),
@@ -59,7 +62,7 @@ def run(filt=None):
             code = ("import sys; sys.path.insert(0, %r)\nimport importlib, json\nfrom pyvc.unit import run_units\n"
                     "m = importlib.import_module('contracts.%s'); us = [u for u in m.UNITS if %r in u.name]\nr = run_units(us, timeout_ms=6000)\n"
                     "out = {}\nfor n, x in r.items():\n    out[n] = {'undecided': x.get('undecided'), 'failed': [k for k, a in x.get('obligations', {}).items() if a['status'] != 'proved']}\nprint(json.dumps(out))\n") % (ROOT, mod, unit)
-            r = subprocess.run(['python3-vt', '-c', code], env=dict(os.environ, PJPLAN_SRC=d + '/src'), capture_output=True, text=True)
+            r = subprocess.run(['python3-vt', '-c', code], env=dict(os.environ, PJPLAN_SRC=d + '/src', PYTHONHASHSEED='0'), capture_output=True, text=True)
             out = json.loads(r.stdout.strip().splitlines()[-1]) if r.stdout.strip() else {}
             failed = [f for v in out.values() for f in v['failed']]; und = [v['undecided'] for v in out.values() if v['undecided']]
             if any(expect in f for f in failed): verdict = 'KILLED'
